@@ -149,7 +149,9 @@ func VerifHTMLKeepInConditional(n int) {
 		"<p class=\"c\" id='i'>x</p>",
 		"<form method=\"get\"><input type=\"text\"></form>",
 		"<p>a  b</p>  <p>c</p>",
-	}[vChoice("inner", 4)]
+		"<p title=\"a--\">x</p>",
+		"<script>a-- >b</script><p id=\"--\">y</p>",
+	}[vChoice("inner", 6)]
 	in := []byte("<!--[if lt IE 9]>" + inner + "<![endif]--><p>t")
 	o := &Minifier{KeepSpecialComments: true, KeepEndTags: vBool("KeepEndTags"), KeepQuotes: vBool("KeepQuotes"), KeepDefaultAttrVals: vBool("KeepDefaultAttrVals"), KeepWhitespace: vBool("KeepWhitespace")}
 	out, err := verifHTMLRun(in, o)
@@ -157,6 +159,7 @@ func VerifHTMLKeepInConditional(n int) {
 	vOutput("out", out)
 	vAssert(err == nil, "accepted")
 	vAssert(rhCount(out, "<!--[if lt IE 9]>") == 1 && rhCount(out, "<![endif]-->") == 1, "KeepSpecialComments: conditional comment kept")
+	vAssert(rhCount(out, "-->") == rhCount(in, "-->"), "the conditional comment ends where it ended (no --> appears inside it)")
 	if o.KeepEndTags {
 		for _, t := range []string{"</p>", "</li>", "</ul>", "</form>"} {
 			vAssert(rhCount(out, t) >= rhCount([]byte(inner), t), "KeepEndTags holds inside the conditional comment")
